@@ -170,6 +170,8 @@ func runWebUI(env *execenv.Env, opts webUIOptions) error {
 		// default to true
 		configOpen = true
 	} else if err != nil {
+		// the server will never run, the teardown above will not happen: release the repository lock
+		_ = graphqlHandler.Close()
 		return err
 	}
 
